@@ -5,7 +5,7 @@
 # so /repo is never touched. Nothing is written to /verif/evidence.
 REPORT=$1; shift
 export GOFLAGS=-mod=mod GOPROXY=off GOSUMDB=off GOTOOLCHAIN=local
-M=/tmp/mutrepo
+M=${MUT:-/tmp/mutrepo}
 [ -d $M ] || git -C /repo worktree add --detach $M HEAD -q
 for item in "$@"; do
   D=${item%%:*}; PROPS=${item#*:}
